@@ -121,7 +121,7 @@ def find_single_match(body, src="normal"):
 # ---------------------------------------------------------------------------------- MIR paths
 
 
-def enum_paths(fn, max_paths=4000, max_len=400):
+def enum_paths(fn, max_paths=4000, max_len=400, start=0, stops=(), inner_loops="error"):
     """Enumerate acyclic non-unwind paths entry -> return of a small function.
     Each result: (atoms, ret_block, path_blocks) where atoms is the list of edge facts
     (hashable tuples) of the switches taken, in path order.  Boolean locals assigned constants
@@ -159,6 +159,9 @@ def enum_paths(fn, max_paths=4000, max_len=400):
     def rec(b, atoms, env, path, onpath):
         if len(out) >= max_paths or len(path) > max_len:
             raise Undecided("too many paths in %s" % fn.name)
+        if b in stops and path:
+            out.append((list(atoms), b, list(path) + [b]))
+            return
         env = bool_consts_of_block(b, env)
         t = fn.term(b)
         if t[0] == "ret":
@@ -172,20 +175,41 @@ def enum_paths(fn, max_paths=4000, max_len=400):
                 if s not in onpath:
                     rec(s, atoms, env, path + [b], onpath | {b})
                 return
+            # variants of call results already decided on this path (a second switch on the same
+            # discriminant, e.g. drop elaboration of a match scrutinee, follows the same variant)
+            decided = {}
+            for f in atoms:
+                if f[0] == "variant" and f[3] is True and f[1].startswith("call:"):
+                    decided[f[1]] = f[2]
+            cands = []
             for s in dict.fromkeys(succs[b]):
                 if s in onpath:
                     continue
                 if fn.term(s)[0] == "unreachable":
                     continue
                 fs = edge_facts(fn, b, s)  # callbool facts keep their Call object at index 4
-                rec(s, atoms + fs, env, path + [b], onpath | {b})
+                feasible = True
+                for f in fs:
+                    if f[0] == "variant" and f[3] is True and f[1] in decided and decided[f[1]] != f[2]:
+                        feasible = False
+                    if f[0] == "variant_in" and f[1] in decided and decided[f[1]] not in f[2]:
+                        feasible = False
+                cands.append((s, fs, feasible))
+            if any(c[2] for c in cands):
+                cands = [c for c in cands if c[2]]
+            for s, fs, _ok in cands:
+                new = [f for f in fs if not (f[0] == "variant" and f[3] is True and decided.get(f[1]) == f[2])]
+                rec(s, atoms + new, env, path + [b], onpath | {b})
             return
         for s in succs[b]:
             if s in onpath:
+                if inner_loops == "cut":
+                    continue
                 raise Undecided("loop in %s: path enumeration needs a loop-free function" % fn.name)
             rec(s, atoms, env, path + [b], onpath | {b})
 
-    rec(0, [], {}, [], frozenset())
+    stops = set(stops)
+    rec(start, [], {}, [], frozenset())
     return out
 
 
